@@ -165,6 +165,9 @@ def parse_m(fi):
 
 def native_checks(tier):
     len1 = 7 if tier != 'thorough' else 9
-    return [dict(name='ipv6_enum_bounded', props=('C20',), src='bounded/ipv6_enum.cpp', args=[str(len1)],
+    return [dict(name='uri_enum_bounded', props=('C20',), src='bounded/uri_enum.cpp', args=['5' if tier != 'thorough' else '6'],
+                 bound='real URI / URI_reference / absolute_URI followed by eof run natively against a language-exact RFC 3986 Appendix A recogniser (position-set semantics) on: all strings over '
+                       '"a1:/?#[]@.%%,+-" up to length %s; the product of component samples (7 schemes x 6 userinfos x 16 hosts x 4 ports x 10 paths x 4 queries x 4 fragments)' % ('5' if tier != 'thorough' else '6')),
+            dict(name='ipv6_enum_bounded', props=('C20',), src='bounded/ipv6_enum.cpp', args=[str(len1)],
                  bound='real seq< IPv6address, eof > (and the literal as host of URI / URI-reference / absolute-URI) run natively against the RFC 3986 recogniser on: all strings over {1,a,:,.,g} '
                        'up to length %d; all shapes <0..9 groups>[::]<0..9 groups>[IPv4 tail] with per-position group variants; all single-character edits of those shapes' % len1)]
